@@ -1,7 +1,7 @@
 """C03 — support mappings (structural clauses)."""
 from . import scopes
 from ..core.report import DOMAIN_D
-from ..rules import colliders, frame, signalign, eager, affine, unpack
+from ..rules import colliders, frame, signalign, eager, affine, unpack, purity, onsegment, misc2
 from .common import e1, e2
 
 MODS = {"distance3d.geometry", "distance3d.colliders", "distance3d.mesh", "distance3d.utils"}
@@ -31,4 +31,9 @@ def run(idx, rep, tier):
     colliders.r_aabbargs(idx, rep)
     it = e1(idx)
     eager.r_eager(idx, rep, it, caller_filter=lambda f: f.module.name in ("distance3d.colliders", "distance3d.mesh"), floor=15, unknown_ceiling=2)
+    purity.r_pureargs(idx, rep, ["distance3d.colliders", "distance3d.geometry", "distance3d.mesh", "distance3d.utils"], floor=20)
+    onsegment.r_halfsize(idx, rep, ["distance3d.geometry", "distance3d.colliders"], floor=2)
+    misc2.r_basisguard(idx, rep)
+    misc2.r_adjacency(idx, rep)
+    misc2.r_dupcond(idx, rep, [m.name for m in idx.lib_modules()], floor=3)
     unpack.r_unpack(idx, rep, floor=1)
